@@ -1,7 +1,27 @@
 
+(** val negb : bool -> bool **)
+
+let negb = function
+| true -> false
+| false -> true
+
+type nat =
+| O
+| S of nat
+
 type ('a, 'b) sum =
 | Inl of 'a
 | Inr of 'b
+
+(** val fst : ('a1 * 'a2) -> 'a1 **)
+
+let fst = function
+| (x, _) -> x
+
+(** val snd : ('a1 * 'a2) -> 'a2 **)
+
+let snd = function
+| (_, y) -> y
 
 (** val app : 'a1 list -> 'a1 list -> 'a1 list **)
 
@@ -14,6 +34,13 @@ type comparison =
 | Eq
 | Lt
 | Gt
+
+(** val compOpp : comparison -> comparison **)
+
+let compOpp = function
+| Eq -> Eq
+| Lt -> Gt
+| Gt -> Lt
 
 type uint =
 | Nil
@@ -95,6 +122,15 @@ type z =
 | Z0
 | Zpos of positive
 | Zneg of positive
+
+module type UsualOrderedTypeFull =
+ sig
+  type t
+
+  val compare : t -> t -> comparison
+
+  val eq_dec : t -> t -> bool
+ end
 
 module Pos =
  struct
@@ -274,6 +310,20 @@ module Coq_Pos =
 
   let to_uint p =
     rev (to_little_uint p)
+
+  (** val eq_dec : positive -> positive -> bool **)
+
+  let rec eq_dec p x0 =
+    match p with
+    | XI p0 -> (match x0 with
+                | XI p1 -> eq_dec p0 p1
+                | _ -> false)
+    | XO p0 -> (match x0 with
+                | XO p1 -> eq_dec p0 p1
+                | _ -> false)
+    | XH -> (match x0 with
+             | XH -> true
+             | _ -> false)
  end
 
 module N =
@@ -369,11 +419,76 @@ let n_of_ascii = function
   n_of_digits
     (a0 :: (a1 :: (a2 :: (a3 :: (a4 :: (a5 :: (a6 :: (a7 :: []))))))))
 
+(** val nth : nat -> 'a1 list -> 'a1 -> 'a1 **)
+
+let rec nth n0 l default =
+  match n0 with
+  | O -> (match l with
+          | [] -> default
+          | x :: _ -> x)
+  | S m -> (match l with
+            | [] -> default
+            | _ :: t0 -> nth m t0 default)
+
+(** val last : 'a1 list -> 'a1 -> 'a1 **)
+
+let rec last l d =
+  match l with
+  | [] -> d
+  | a :: l0 -> (match l0 with
+                | [] -> a
+                | _ :: _ -> last l0 d)
+
 (** val rev0 : 'a1 list -> 'a1 list **)
 
 let rec rev0 = function
 | [] -> []
 | x :: l' -> app (rev0 l') (x :: [])
+
+(** val map : ('a1 -> 'a2) -> 'a1 list -> 'a2 list **)
+
+let rec map f = function
+| [] -> []
+| a :: t0 -> (f a) :: (map f t0)
+
+(** val forallb : ('a1 -> bool) -> 'a1 list -> bool **)
+
+let rec forallb f = function
+| [] -> true
+| a :: l0 -> (&&) (f a) (forallb f l0)
+
+module Z =
+ struct
+  (** val compare : z -> z -> comparison **)
+
+  let compare x y =
+    match x with
+    | Z0 -> (match y with
+             | Z0 -> Eq
+             | Zpos _ -> Lt
+             | Zneg _ -> Gt)
+    | Zpos x' -> (match y with
+                  | Zpos y' -> Coq_Pos.compare x' y'
+                  | _ -> Gt)
+    | Zneg x' ->
+      (match y with
+       | Zneg y' -> compOpp (Coq_Pos.compare x' y')
+       | _ -> Lt)
+
+  (** val eq_dec : z -> z -> bool **)
+
+  let eq_dec x y =
+    match x with
+    | Z0 -> (match y with
+             | Z0 -> true
+             | _ -> false)
+    | Zpos p -> (match y with
+                 | Zpos p0 -> Coq_Pos.eq_dec p p0
+                 | _ -> false)
+    | Zneg p -> (match y with
+                 | Zneg p0 -> Coq_Pos.eq_dec p p0
+                 | _ -> false)
+ end
 
 type string =
 | EmptyString
@@ -424,6 +539,14 @@ let dec_Z = function
 let is_digit c =
   (&&) (N.leb (Npos (XO (XO (XO (XO (XI XH)))))) c)
     (N.leb c (Npos (XI (XO (XO (XI (XI XH)))))))
+
+(** val join : text -> text list -> text **)
+
+let rec join sep = function
+| [] -> []
+| x :: r -> (match r with
+             | [] -> x
+             | _ :: _ -> app x (app sep (join sep r)))
 
 type semver = { major : n; minor : n; patch : n }
 
@@ -566,3 +689,704 @@ let bump_major v =
   if N.ltb v.major u32_max
   then Some { major = (N.add v.major (Npos XH)); minor = N0; patch = N0 }
   else None
+
+type 't bound =
+| Incl of 't
+| Excl of 't
+| Unb
+
+module RangeM =
+ functor (V:UsualOrderedTypeFull) ->
+ struct
+  type ver = V.t
+
+  type bnd = V.t bound
+
+  type seg = bnd * bnd
+
+  type range = seg list
+
+  (** val vltb : ver -> ver -> bool **)
+
+  let vltb a b =
+    match V.compare a b with
+    | Lt -> true
+    | _ -> false
+
+  (** val vleb : ver -> ver -> bool **)
+
+  let vleb a b =
+    match V.compare a b with
+    | Gt -> false
+    | _ -> true
+
+  (** val veqb : ver -> ver -> bool **)
+
+  let veqb a b =
+    match V.compare a b with
+    | Eq -> true
+    | _ -> false
+
+  (** val vmax : ver -> ver -> ver **)
+
+  let vmax a b =
+    if vleb a b then b else a
+
+  (** val empty : range **)
+
+  let empty =
+    []
+
+  (** val full : range **)
+
+  let full =
+    (Unb, Unb) :: []
+
+  (** val higher_than : ver -> range **)
+
+  let higher_than v =
+    ((Incl v), Unb) :: []
+
+  (** val strictly_higher_than : ver -> range **)
+
+  let strictly_higher_than v =
+    ((Excl v), Unb) :: []
+
+  (** val strictly_lower_than : ver -> range **)
+
+  let strictly_lower_than v =
+    (Unb, (Excl v)) :: []
+
+  (** val lower_than : ver -> range **)
+
+  let lower_than v =
+    (Unb, (Incl v)) :: []
+
+  (** val between : ver -> ver -> range **)
+
+  let between v1 v2 =
+    ((Incl v1), (Excl v2)) :: []
+
+  (** val singleton : ver -> range **)
+
+  let singleton v =
+    ((Incl v), (Incl v)) :: []
+
+  (** val is_empty : range -> bool **)
+
+  let is_empty = function
+  | [] -> true
+  | _ :: _ -> false
+
+  (** val valid_segment : bnd -> bnd -> bool **)
+
+  let valid_segment s e =
+    match s with
+    | Incl s0 ->
+      (match e with
+       | Incl e0 -> vleb s0 e0
+       | Excl e0 -> vltb s0 e0
+       | Unb -> true)
+    | Excl s0 ->
+      (match e with
+       | Incl e0 -> vltb s0 e0
+       | Excl e0 -> vltb s0 e0
+       | Unb -> true)
+    | Unb -> true
+
+  (** val end_before_start_with_gap : bnd -> bnd -> bool **)
+
+  let end_before_start_with_gap e s =
+    match e with
+    | Incl l ->
+      (match s with
+       | Incl r -> vltb l r
+       | Excl r -> vltb l r
+       | Unb -> false)
+    | Excl l ->
+      (match s with
+       | Incl r -> vltb l r
+       | Excl r -> vleb l r
+       | Unb -> false)
+    | Unb -> false
+
+  (** val left_start_is_smaller : bnd -> bnd -> bool **)
+
+  let left_start_is_smaller l r =
+    match l with
+    | Incl l0 ->
+      (match r with
+       | Incl r0 -> vleb l0 r0
+       | Excl r0 -> vleb l0 r0
+       | Unb -> false)
+    | Excl l0 ->
+      (match r with
+       | Incl r0 -> vltb l0 r0
+       | Excl r0 -> vleb l0 r0
+       | Unb -> false)
+    | Unb -> true
+
+  (** val left_end_is_smaller : bnd -> bnd -> bool **)
+
+  let left_end_is_smaller l r =
+    match l with
+    | Incl l0 ->
+      (match r with
+       | Incl r0 -> vleb l0 r0
+       | Excl r0 -> vltb l0 r0
+       | Unb -> true)
+    | Excl l0 ->
+      (match r with
+       | Incl r0 -> vleb l0 r0
+       | Excl r0 -> vleb l0 r0
+       | Unb -> true)
+    | Unb -> (match r with
+              | Unb -> true
+              | _ -> false)
+
+  (** val within_bounds : ver -> seg -> comparison **)
+
+  let within_bounds v sg =
+    let below_lower =
+      match fst sg with
+      | Incl s -> vltb v s
+      | Excl s -> vleb v s
+      | Unb -> false
+    in
+    if below_lower
+    then Lt
+    else let below_upper =
+           match snd sg with
+           | Incl e -> vleb v e
+           | Excl e -> vltb v e
+           | Unb -> true
+         in
+         if below_upper then Eq else Gt
+
+  (** val cmp_bounds_start : bnd -> bnd -> comparison **)
+
+  let cmp_bounds_start l r =
+    match l with
+    | Incl l0 ->
+      (match r with
+       | Incl r0 -> V.compare l0 r0
+       | Excl r0 -> (match V.compare l0 r0 with
+                     | Eq -> Lt
+                     | x -> x)
+       | Unb -> Gt)
+    | Excl l0 ->
+      (match r with
+       | Incl r0 -> (match V.compare l0 r0 with
+                     | Eq -> Gt
+                     | x -> x)
+       | Excl r0 -> V.compare l0 r0
+       | Unb -> Gt)
+    | Unb -> (match r with
+              | Unb -> Eq
+              | _ -> Lt)
+
+  (** val cmp_bounds_end : bnd -> bnd -> comparison **)
+
+  let cmp_bounds_end l r =
+    match l with
+    | Incl l0 ->
+      (match r with
+       | Incl r0 -> V.compare l0 r0
+       | Excl r0 -> (match V.compare l0 r0 with
+                     | Eq -> Gt
+                     | x -> x)
+       | Unb -> Lt)
+    | Excl l0 ->
+      (match r with
+       | Incl r0 -> (match V.compare l0 r0 with
+                     | Eq -> Lt
+                     | x -> x)
+       | Excl r0 -> V.compare l0 r0
+       | Unb -> Lt)
+    | Unb -> (match r with
+              | Unb -> Eq
+              | _ -> Gt)
+
+  (** val acc_end : bnd -> bnd -> bnd **)
+
+  let acc_end a s =
+    match a with
+    | Incl l ->
+      (match s with
+       | Incl r -> if veqb l r then a else if vltb r l then a else s
+       | Excl r -> if veqb l r then a else if vltb r l then a else s
+       | Unb -> Unb)
+    | Excl l ->
+      (match s with
+       | Incl r -> if vltb r l then a else s
+       | Excl r -> if vltb r l then a else s
+       | Unb -> Unb)
+    | Unb -> Unb
+
+  (** val inter_start : bnd -> bnd -> bnd **)
+
+  let inter_start l r =
+    match l with
+    | Incl i ->
+      (match r with
+       | Incl r0 -> Incl (vmax i r0)
+       | Excl e -> if vleb i e then Excl e else Incl i
+       | Unb -> l)
+    | Excl e ->
+      (match r with
+       | Incl i -> if vleb i e then Excl e else Incl i
+       | Excl r0 -> Excl (vmax e r0)
+       | Unb -> l)
+    | Unb -> (match r with
+              | Unb -> l
+              | _ -> r)
+
+  (** val flip : bnd -> bnd **)
+
+  let flip = function
+  | Incl v -> Excl v
+  | Excl v -> Incl v
+  | Unb -> Unb
+
+  (** val negate_segments : bnd -> range -> range **)
+
+  let rec negate_segments start = function
+  | [] -> (match start with
+           | Unb -> []
+           | _ -> (start, Unb) :: [])
+  | s :: rest ->
+    let (v1, v2) = s in (start, (flip v1)) :: (negate_segments (flip v2) rest)
+
+  (** val complement : range -> range **)
+
+  let complement r = match r with
+  | [] -> full
+  | s :: rest ->
+    let (b, b0) = s in
+    (match b with
+     | Incl v ->
+       (match b0 with
+        | Unb -> strictly_lower_than v
+        | _ -> negate_segments Unb r)
+     | Excl v ->
+       (match b0 with
+        | Unb -> lower_than v
+        | _ -> negate_segments Unb r)
+     | Unb ->
+       (match b0 with
+        | Incl v -> negate_segments (Excl v) rest
+        | Excl v -> negate_segments (Incl v) rest
+        | Unb -> empty))
+
+  (** val merge : range -> range -> range **)
+
+  let rec merge l r =
+    match l with
+    | [] -> r
+    | x :: l' ->
+      let rec aux r0 = match r0 with
+      | [] -> l
+      | y :: r' ->
+        if left_start_is_smaller (fst x) (fst y)
+        then x :: (merge l' r0)
+        else y :: (aux r')
+      in aux r
+
+  (** val coalesce : seg -> range -> range **)
+
+  let rec coalesce acc = function
+  | [] -> acc :: []
+  | s :: rest' ->
+    if end_before_start_with_gap (snd acc) (fst s)
+    then acc :: (coalesce s rest')
+    else coalesce ((fst acc), (acc_end (snd acc) (snd s))) rest'
+
+  (** val union : range -> range -> range **)
+
+  let union a b =
+    match merge a b with
+    | [] -> []
+    | s :: rest -> coalesce s rest
+
+  (** val inter_emit : bnd -> bnd -> bnd -> bnd -> range **)
+
+  let inter_emit other_start e ls rs =
+    if valid_segment other_start e then ((inter_start ls rs), e) :: [] else []
+
+  (** val intersection : range -> range -> range **)
+
+  let rec intersection l r =
+    match l with
+    | [] -> []
+    | s :: l' ->
+      let (ls, le) = s in
+      let rec aux r0 = match r0 with
+      | [] -> []
+      | s0 :: r' ->
+        let (rs, re) = s0 in
+        if left_end_is_smaller le re
+        then app (inter_emit rs le ls rs) (intersection l' r0)
+        else app (inter_emit ls re ls rs) (aux r')
+      in aux r
+
+  (** val is_disjoint : range -> range -> bool **)
+
+  let rec is_disjoint l r =
+    match l with
+    | [] -> true
+    | s :: l' ->
+      let (ls, le) = s in
+      let rec aux r0 = match r0 with
+      | [] -> true
+      | s0 :: r' ->
+        let (rs, re) = s0 in
+        if negb (valid_segment rs le)
+        then is_disjoint l' r0
+        else if negb (valid_segment ls re) then aux r' else false
+      in aux r
+
+  (** val advance : bnd -> seg -> range -> (seg * range) option **)
+
+  let rec advance sstart c cs =
+    if valid_segment sstart (snd c)
+    then Some (c, cs)
+    else (match cs with
+          | [] -> None
+          | c' :: cs' -> advance sstart c' cs')
+
+  (** val subset_loop : range -> seg -> range -> bool **)
+
+  let rec subset_loop sub0 c cs =
+    match sub0 with
+    | [] -> true
+    | s :: sub' ->
+      (match advance (fst s) c cs with
+       | Some p ->
+         let (c', cs') = p in
+         if negb (left_start_is_smaller (fst c') (fst s))
+         then false
+         else if negb (left_end_is_smaller (snd s) (snd c'))
+              then false
+              else subset_loop sub' c' cs'
+       | None -> false)
+
+  (** val subset_of : range -> range -> bool **)
+
+  let subset_of a = function
+  | [] -> is_empty a
+  | c :: cs -> subset_loop a c cs
+
+  (** val cursor : ver -> range -> bool * range **)
+
+  let rec cursor v segs = match segs with
+  | [] -> (false, [])
+  | s :: rest ->
+    (match within_bounds v s with
+     | Eq -> (true, segs)
+     | Lt -> (false, segs)
+     | Gt -> cursor v rest)
+
+  (** val contains : range -> ver -> bool **)
+
+  let contains r v =
+    fst (cursor v r)
+
+  (** val contains_many : range -> ver list -> bool list **)
+
+  let rec contains_many segs = function
+  | [] -> []
+  | v :: vs' ->
+    let (b, segs') = cursor v segs in b :: (contains_many segs' vs')
+
+  (** val as_singleton : range -> ver option **)
+
+  let as_singleton = function
+  | [] -> None
+  | s :: l ->
+    let (b, b0) = s in
+    (match b with
+     | Incl v1 ->
+       (match b0 with
+        | Incl v2 ->
+          (match l with
+           | [] -> if veqb v1 v2 then Some v1 else None
+           | _ :: _ -> None)
+        | _ -> None)
+     | _ -> None)
+
+  (** val bounding_range : range -> (bnd * bnd) option **)
+
+  let bounding_range r = match r with
+  | [] -> None
+  | s0 :: _ -> let (s, _) = s0 in Some (s, (snd (last r (Unb, Unb))))
+
+  (** val from_range_bounds : bnd -> bnd -> range **)
+
+  let from_range_bounds s e =
+    if valid_segment s e then (s, e) :: [] else []
+
+  (** val gaps_ok : range -> bool **)
+
+  let rec gaps_ok = function
+  | [] -> true
+  | s1 :: rest ->
+    (match rest with
+     | [] -> true
+     | s2 :: _ ->
+       (&&) (end_before_start_with_gap (snd s1) (fst s2)) (gaps_ok rest))
+
+  (** val check_invariants : range -> bool **)
+
+  let check_invariants r =
+    (&&) (gaps_ok r) (forallb (fun sg -> valid_segment (fst sg) (snd sg)) r)
+
+  (** val loc_cursor : ver -> nat -> range -> (nat option * nat) * range **)
+
+  let rec loc_cursor v i segs = match segs with
+  | [] -> ((None, i), [])
+  | s :: rest ->
+    (match within_bounds v s with
+     | Eq -> (((Some i), i), segs)
+     | Lt -> ((None, i), segs)
+     | Gt -> loc_cursor v (S i) rest)
+
+  (** val version_locations : nat -> range -> ver list -> nat option list **)
+
+  let rec version_locations i segs = function
+  | [] -> []
+  | v :: vs' ->
+    let (p, segs') = loc_cursor v i segs in
+    let (o, i') = p in o :: (version_locations i' segs' vs')
+
+  type group = nat option * nat option
+
+  (** val gal : group option -> nat option list -> group list **)
+
+  let rec gal sg = function
+  | [] ->
+    (match sg with
+     | Some g -> let (s, _) = g in (s, None) :: []
+     | None -> [])
+  | o :: rest ->
+    (match o with
+     | Some ver0 ->
+       gal (Some
+         ((match sg with
+           | Some g -> let (s, _) = g in s
+           | None -> Some ver0), (Some ver0))) rest
+     | None ->
+       (match sg with
+        | Some g -> g :: (gal None rest)
+        | None -> gal None rest))
+
+  (** val group_adjacent_locations : nat option list -> group list **)
+
+  let group_adjacent_locations = function
+  | [] -> []
+  | first :: rest ->
+    gal
+      (match first with
+       | Some ver0 -> Some (None, (Some ver0))
+       | None -> None) rest
+
+  (** val keep_segments : range -> group list -> range **)
+
+  let keep_segments r kept =
+    map (fun g ->
+      ((match fst g with
+        | Some s -> fst (nth s r (Unb, Unb))
+        | None -> Unb),
+      (match snd g with
+       | Some e -> snd (nth e r (Unb, Unb))
+       | None -> Unb))) kept
+
+  (** val simplify : range -> ver list -> range **)
+
+  let simplify r vs =
+    match as_singleton r with
+    | Some _ -> r
+    | None ->
+      (match group_adjacent_locations (version_locations O r vs) with
+       | [] -> r
+       | g :: l -> keep_segments r (g :: l))
+
+  (** val iter : range -> (bnd * bnd) list **)
+
+  let iter r =
+    r
+
+  (** val range_cmp : range -> range -> comparison **)
+
+  let rec range_cmp a b =
+    match a with
+    | [] -> (match b with
+             | [] -> Eq
+             | _ :: _ -> Lt)
+    | s :: a' ->
+      let (ls, le) = s in
+      (match b with
+       | [] -> Gt
+       | s0 :: b' ->
+         let (rs, re) = s0 in
+         (match cmp_bounds_start ls rs with
+          | Eq ->
+            (match cmp_bounds_end le re with
+             | Eq -> range_cmp a' b'
+             | x -> x)
+          | x -> x))
+
+  (** val range_partial_cmp : range -> range -> comparison option **)
+
+  let range_partial_cmp a b =
+    Some (range_cmp a b)
+
+  (** val bound_eqb : bnd -> bnd -> bool **)
+
+  let bound_eqb a b =
+    match a with
+    | Incl x -> (match b with
+                 | Incl y -> veqb x y
+                 | _ -> false)
+    | Excl x -> (match b with
+                 | Excl y -> veqb x y
+                 | _ -> false)
+    | Unb -> (match b with
+              | Unb -> true
+              | _ -> false)
+
+  (** val range_eqb : range -> range -> bool **)
+
+  let rec range_eqb a b =
+    match a with
+    | [] -> (match b with
+             | [] -> true
+             | _ :: _ -> false)
+    | s :: a' ->
+      let (s1, e1) = s in
+      (match b with
+       | [] -> false
+       | s0 :: b' ->
+         let (s2, e2) = s0 in
+         (&&) ((&&) (bound_eqb s1 s2) (bound_eqb e1 e2)) (range_eqb a' b'))
+
+  (** val display_seg : (ver -> text) -> seg -> text **)
+
+  let display_seg show = function
+  | (b0, b1) ->
+    (match b0 with
+     | Incl v ->
+       (match b1 with
+        | Incl b ->
+          if veqb v b
+          then show v
+          else app
+                 (txt (String ((Ascii (false, true, true, true, true, true,
+                   false, false)), (String ((Ascii (true, false, true, true,
+                   true, true, false, false)), EmptyString)))))
+                 (app (show v)
+                   (app
+                     (txt (String ((Ascii (false, false, true, true, false,
+                       true, false, false)), (String ((Ascii (false, false,
+                       false, false, false, true, false, false)), (String
+                       ((Ascii (false, false, true, true, true, true, false,
+                       false)), (String ((Ascii (true, false, true, true,
+                       true, true, false, false)), EmptyString)))))))))
+                     (show b)))
+        | Excl b ->
+          app
+            (txt (String ((Ascii (false, true, true, true, true, true, false,
+              false)), (String ((Ascii (true, false, true, true, true, true,
+              false, false)), EmptyString)))))
+            (app (show v)
+              (app
+                (txt (String ((Ascii (false, false, true, true, false, true,
+                  false, false)), (String ((Ascii (false, false, false,
+                  false, false, true, false, false)), (String ((Ascii (false,
+                  false, true, true, true, true, false, false)),
+                  EmptyString))))))) (show b)))
+        | Unb ->
+          app
+            (txt (String ((Ascii (false, true, true, true, true, true, false,
+              false)), (String ((Ascii (true, false, true, true, true, true,
+              false, false)), EmptyString))))) (show v))
+     | Excl v ->
+       (match b1 with
+        | Incl b ->
+          app
+            (txt (String ((Ascii (false, true, true, true, true, true, false,
+              false)), EmptyString)))
+            (app (show v)
+              (app
+                (txt (String ((Ascii (false, false, true, true, false, true,
+                  false, false)), (String ((Ascii (false, false, false,
+                  false, false, true, false, false)), (String ((Ascii (false,
+                  false, true, true, true, true, false, false)), (String
+                  ((Ascii (true, false, true, true, true, true, false,
+                  false)), EmptyString))))))))) (show b)))
+        | Excl b ->
+          app
+            (txt (String ((Ascii (false, true, true, true, true, true, false,
+              false)), EmptyString)))
+            (app (show v)
+              (app
+                (txt (String ((Ascii (false, false, true, true, false, true,
+                  false, false)), (String ((Ascii (false, false, false,
+                  false, false, true, false, false)), (String ((Ascii (false,
+                  false, true, true, true, true, false, false)),
+                  EmptyString))))))) (show b)))
+        | Unb ->
+          app
+            (txt (String ((Ascii (false, true, true, true, true, true, false,
+              false)), EmptyString))) (show v))
+     | Unb ->
+       (match b1 with
+        | Incl v ->
+          app
+            (txt (String ((Ascii (false, false, true, true, true, true,
+              false, false)), (String ((Ascii (true, false, true, true, true,
+              true, false, false)), EmptyString))))) (show v)
+        | Excl v ->
+          app
+            (txt (String ((Ascii (false, false, true, true, true, true,
+              false, false)), EmptyString))) (show v)
+        | Unb ->
+          txt (String ((Ascii (false, true, false, true, false, true, false,
+            false)), EmptyString))))
+
+  (** val display : (ver -> text) -> range -> text **)
+
+  let display show r = match r with
+  | [] ->
+    txt (String ((Ascii (false, true, false, false, false, true, true,
+      true)), (String ((Ascii (false, false, false, true, false, false,
+      false, true)), (String ((Ascii (true, false, true, false, false, false,
+      false, true)), EmptyString))))))
+  | _ :: _ ->
+    join
+      (txt (String ((Ascii (false, false, false, false, false, true, false,
+        false)), (String ((Ascii (false, false, true, true, true, true, true,
+        false)), (String ((Ascii (false, false, false, false, false, true,
+        false, false)), EmptyString))))))) (map (display_seg show) r)
+ end
+
+module ZV =
+ struct
+  type t = z
+
+  (** val eq_dec : z -> z -> bool **)
+
+  let eq_dec =
+    Z.eq_dec
+
+  (** val compare : z -> z -> comparison **)
+
+  let compare =
+    Z.compare
+ end
+
+module RZ = RangeM(ZV)
+
+(** val rz_display : RZ.range -> text **)
+
+let rz_display r =
+  RZ.display dec_Z r
